@@ -4,3 +4,5 @@ pub mod c06;
 pub mod c02;
 pub mod c16;
 pub mod c17;
+pub mod c11;
+pub mod c12;
